@@ -2,6 +2,7 @@ import SamVerif.Props.C06
 import SamVerif.Props.C06b
 import SamVerif.Props.C06c
 import SamVerif.Props.C06d
+import SamVerif.Props.C06e
 import SamVerif.Props.C06x
 /-! Axiom audit of every C06 property theorem (parsed by vlib/common.py). -/
 open SamVerif.IntRange SamVerif.Assign SamVerif.Gates SamVerif.Scope SamVerif.C06x
@@ -59,3 +60,9 @@ open SamVerif.IntRange SamVerif.Assign SamVerif.Gates SamVerif.Scope SamVerif.C0
 #print axioms function_in_interface_rejected
 #print axioms rebind_reported
 #print axioms cyclic_flag_monotone_memo
+#print axioms memo_extends
+#print axioms memo_exhausted_monotone
+#print axioms memo_invariant
+#print axioms memo_result_ordered
+#print axioms ordered_closed
+#print axioms cycle_detected_memo
